@@ -65,7 +65,7 @@ FORM_SRC = {
     (2, "infix"): "aa ff d2", (2, "call"): "ff(aa, d2)", (2, "bang"): "ff ! aa, d2", (2, "backtick"): "aa `ff` d2",
     (2, "sec1"): "ff(_, d2)(aa)", (2, "sec2"): "ff(aa, _)(d2)", (2, "chsec1"): "(_ ff d2)(aa)",
     (2, "chsec2"): "(aa ff _)(d2)", (2, "apply"): "[aa, d2] apply ff", (2, "of"): "ff of [aa, d2]",
-    (2, "juxta"): "(aa ff)(d2)", (2, "rsec"): "ff(d2)(aa)", (2, "opassign"): "xx = aa; xx ff= d2; xx",
+    (2, "juxta"): "(aa ff)(d2)", (2, "rsec"): "ff(d2)(aa)", (2, "opassign"): "xx = aa; xx ff= d2; xx", (2, "opself"): "xx = aa; xx ff= xx; xx",
     (2, "splat"): "ff(...[aa, d2])", (2, "secsp1"): "ff(_, ...[d2])(aa)", (2, "secsp2"): "ff(...[aa], _)(d2)",
     (1, "call"): "ff(aa)", (1, "bang"): "ff ! aa", (1, "splat"): "ff(...[aa])", (1, "dot"): "aa . ff",
     (1, "then"): "aa then ff", (1, "sec"): "ff(_)(aa)",
